@@ -226,6 +226,31 @@ fn section_codecs(rng: &mut Rng, out: &mut CaseOut, thorough: bool) {
     let n_cols = if thorough { 700 } else { 150 };
     let mut coq_budget: i64 = if thorough { 900 } else { 260 };
     let mut range_tie_budget: i64 = if thorough { 300 } else { 80 };
+    // ---- corpus: the witness of F81 (fixed in /repo) as a regression case, every codec, plus boundary neighbours
+    for (vals, lo, hi) in [(vec![10u64, 20, 30], 3u64, 5u64), (vec![10, 20, 30], 3, 9), (vec![10, 20, 30], 3, 10), (vec![10, 20, 30], 0, 0), (vec![7, 7, 7, 7], 0, 6),
+                           (vec![u64::MAX - 1, u64::MAX], 0, u64::MAX - 2), (vec![1u64 << 63, (1 << 63) + 1000], 5, (1 << 63) - 1)] {
+        let n = vals.len();
+        for &codec in &codecs {
+            let Ok(Some(l)) = guarded(|| serialize_with(&vals, &[codec])) else { continue; };   // linear declines short columns
+            let got = guarded(|| { let mut p = Vec::new(); l.col.get_row_ids_for_value_range(lo..=hi, 0..n as u32, &mut p); p });
+            let want: Vec<u32> = (0..n as u32).filter(|&i| lo <= vals[i as usize] && vals[i as usize] <= hi).collect();
+            let d = json!({"what": "corpus: range lookup at / below the column minimum (regression of F81)", "codec": codec_name(codec), "vals": vals.iter().map(|v| v.to_string()).collect::<Vec<_>>(), "lo": lo.to_string(), "hi": hi.to_string()});
+            match got {
+                Err(p) => out.spec_checked(false, json!({"what": "range lookup panicked", "case": d, "panic": p})),
+                Ok(got) => {
+                    out.spec_checked(got == want, d.clone());
+                    let col_term = cf::list(&vals, |v| format!("[{}]", v));
+                    out.coq_case("spec", format!("nat_list_eqb (range_lookup {} {} {}) {}", lo, hi, col_term, cf::list(&got, |x| cf::nat(*x as usize))), d.clone(), true);
+                    if codec == CodecType::Bitpacked {
+                        let mut rest = &l.bytes[1..];
+                        let wire = format!("({}, {}, {}, {})", read_vint(&mut rest), read_vint(&mut rest), read_vint(&mut rest), read_vint(&mut rest));
+                        out.coq_case("tie", format!("range_reads_as ({}, {}) {} {} 0%nat {} {}", wire, cf::bytes(rest), lo, hi, cf::nat(n), cf::list(&got, |x| cf::nat(*x as usize))), d, true);
+                    }
+                }
+            }
+            out.count("corpus_range_regression", 1);
+        }
+    }
     for ci in 0..n_cols {
         let kind = ci % VAL_KINDS.len();
         let big = thorough && ci % 50 == 7;
@@ -270,38 +295,31 @@ fn section_codecs(rng: &mut Rng, out: &mut CaseOut, thorough: bool) {
                     Err(p) => out.spec_checked(false, json!({"what": "range lookup panicked", "case": rdesc, "panic": p})),
                     Ok(got) => {
                         // tie: the model of the bit-packed range lookup on the implementation's bytes gives the same rows
-                        // (inside and outside the known class F81: the model reproduces the defect)
+                        // (the model follows the pinned guard COLUMNAR_RANGE_BELOW_MIN_GUARD)
                         if codec == CodecType::Bitpacked && n <= 64 && range_tie_budget > 0 {
                             range_tie_budget -= 1;
                             let mut rest = &loaded.bytes[1..];
                             let wire = format!("({}, {}, {}, {})", read_vint(&mut rest), read_vint(&mut rest), read_vint(&mut rest), read_vint(&mut rest));
                             out.coq_case("tie", format!("range_reads_as ({}, {}) {} {} {} {} {}", wire, cf::bytes(rest), lo, hi, cf::nat(r0 as usize), cf::nat(r1 as usize), cf::list(&got, |x| cf::nat(*x as usize))),
-                                         json!({"what": "bit-packed range lookup vs model", "n": n, "lo": lo.to_string(), "hi": hi.to_string(), "rows": [r0, r1], "in_f81": lo <= hi && hi < mn}), n >= 2);
+                                         json!({"what": "bit-packed range lookup vs model", "n": n, "lo": lo.to_string(), "hi": hi.to_string(), "rows": [r0, r1], "range_below_column_min": lo <= hi && hi < mn}), n >= 2);
                         }
-                        if got == want { out.spec_checked(true, rdesc); }
-                        else if n <= 64 {
-                            // ship the failing input to Coq: the classifier decides whether it lies in the known class
+                        let below_min = lo <= hi && hi < mn;
+                        if below_min { out.count("range_lookups_below_column_min", 1); }
+                        let ok = got == want;
+                        let mut d = rdesc.clone();
+                        if !ok { d["got_len"] = json!(got.len()); d["want_len"] = json!(want.len()); d["got_head"] = json!(&got[..got.len().min(8)]); d["range_below_column_min"] = json!(below_min); }
+                        // a wrong answer is an ordinary violation (also in the former class F81, fixed in /repo)
+                        out.spec_checked(ok, d);
+                        // spec in Coq: always when the answer is wrong on a small column, sampled otherwise (more often below the minimum)
+                        if n <= 64 && (!ok || (coq_budget > 0 && (below_min || rng.chance(1, 3)))) {
+                            coq_budget -= 1;
                             let col_term = cf::list(&vals, |v| format!("[{}]", v));
-                            out.coq_case("known:F81", format!("f81_class {} {} {} && negb (nat_list_eqb (range_lookup_in {} {} {} {} {}) {})", lo, hi, mn, lo, hi, cf::nat(r0 as usize), cf::nat(r1 as usize), col_term, cf::list(&got, |x| cf::nat(*x as usize))), rdesc, true);
-                            out.count("range_below_min_false_positive", 1);
-                        } else {
-                            let in_class = lo <= hi && hi < mn;
-                            let mut d = rdesc; d["known"] = json!(if in_class { "F81" } else { "none" }); d["got_len"] = json!(got.len()); d["want_len"] = json!(want.len());
-                            if in_class { out.spec_fail.push(d); out.n_spec += 1; out.count("range_below_min_false_positive", 1); } else { out.spec_checked(false, d); }
+                            out.coq_case("spec", format!("nat_list_eqb (range_lookup_in {} {} {} {} {}) {}", lo, hi, cf::nat(r0 as usize), cf::nat(r1 as usize), col_term, cf::list(&got, |x| cf::nat(*x as usize))),
+                                         json!({"what": "range lookup (spec in Coq)", "codec": codec_name(codec), "n": n, "lo": lo.to_string(), "hi": hi.to_string(), "rows": [r0, r1], "vals": &vals, "range_below_column_min": below_min}), n >= 2);
                         }
                     }
                 }
                 out.count("range_lookups", 1);
-                if n <= 64 && coq_budget > 0 && rng.chance(1, 3) {
-                    if let Ok(Ok(got)) = guarded(|| -> Result<Vec<u32>, ()> { let mut p = Vec::new(); col.get_row_ids_for_value_range(lo..=hi, r0..r1, &mut p); Ok(p) }) {
-                        if got == want {
-                            coq_budget -= 1;
-                            let col_term = cf::list(&vals, |v| format!("[{}]", v));
-                            out.coq_case("spec", format!("nat_list_eqb (range_lookup_in {} {} {} {} {}) {}", lo, hi, cf::nat(r0 as usize), cf::nat(r1 as usize), col_term, cf::list(&got, |x| cf::nat(*x as usize))),
-                                         json!({"what": "range lookup (spec in Coq)", "codec": codec_name(codec), "n": n, "lo": lo.to_string(), "hi": hi.to_string()}), n >= 2);
-                        }
-                    }
-                }
             }
             // ---- Coq cases: model reader on the implementation's bytes (decode direction), spec on answers
             if coq_budget > 0 && n <= 1600 {
